@@ -8,7 +8,7 @@ from torch.utils._python_dispatch import _disable_current_modes
 from .. import sym as S
 from ..common import Check, Tally, ob, tier, replay_main, TIER
 from ..engine import fresh_reals, elems, from_arr, Ctx
-from ..harness import sym_paths, decide_nra as decide, zor, zand
+from ..harness import sym_paths, decide_nra as decide, decide_any, zor, zand
 from ..sym import NotEncodable
 
 PID = "C07"
@@ -105,7 +105,7 @@ def run_awgn(item, tl, mutate=None):
             bad.append(S.zbool(S.gt(S.sub(lhs, rhs), tol)))
             bad.append(S.zbool(S.lt(S.sub(lhs, rhs), S.neg(tol))))
             bad.append(S.zbool(S.lt(S.mul(d, z), 0)))
-        st, model = decide(ctx, zor(bad))
+        st, model = decide_any(ctx, bad)
         if st == "violated" and viol is None:
             w = witness_of(model, ctx, names)
             rep, detail = replay_awgn(item, w)
@@ -236,7 +236,7 @@ def run_laplacian(item, tl):
                 bad.append(S.zbool(S.gt(S.sub(lhs, rhs), tol)))
                 bad.append(S.zbool(S.lt(S.sub(lhs, rhs), S.neg(tol))))
                 bad.append(S.zbool(S.lt(S.mul(d, L), 0)))
-        st, model = decide(ctx, zor(bad), extra=[z3.Real(f"rng{i}") != z3.RealVal("1/2") for i in range(len(ctx.rng_log))])
+        st, model = decide_any(ctx, bad, extra=[z3.Real(f"rng{i}") != z3.RealVal("1/2") for i in range(len(ctx.rng_log))])
         if st == "violated" and viol is None:
             w = {nm: float(S.zval(model, z3.Real(nm))) for nm in names}
             w["draws"] = [float(S.zval(model, g)) for k, g in ctx.rng_log]
